@@ -4,7 +4,9 @@ import Juniper.Model.PQ
 
 One `xheap.Heap` of items `(priority, id)` ordered by priority only (so that the algorithm's choice
 among ties is visible), one `xheap.PriorityQueue` with `Int` keys and priorities, and any number of
-iterators over each. Orders: `nat`, `rev`, `coarse` (`a/4 < b/4`), each `less`- or `cmp`-constructed. -/
+iterators over each. Orders: `nat`, `rev`, `coarse` (`a/4 < b/4`), each `less`- or `cmp…`-constructed; the
+compare functions come in four magnitude families (only the sign of a compare result is meaningful):
+`cmp` = -1/0/+1, `cmpdiff` = difference of the order's keys, `cmpk` = ±1000, `cmpbig` = MinInt64/MaxInt64. -/
 namespace Juniper.Driver.C05
 open Juniper.Driver Juniper.Model
 open Juniper.Model.Heap (Iter lessOfCmp lessOfLess)
@@ -17,12 +19,26 @@ def ordLess : String → Int → Int → Bool
   | "coarse", a, b => decide (Int.tdiv a 4 < Int.tdiv b 4)
   | _, a, b => decide (a < b)
 
-def ordCmp (o : String) (a b : Int) : Int :=
-  if ordLess o a b then -1 else if ordLess o b a then 1 else 0
+/-- the compare function the harness hands to `NewCmp` / `NewPriorityQueueCmp` for constructor `ctor`
+(`harness/heapcommon.OrdCmp`) -/
+def ordCmp (o ctor : String) (a b : Int) : Int :=
+  if ctor == "cmpdiff" then
+    (match o with
+     | "rev" => b - a
+     | "coarse" => Int.tdiv a 4 - Int.tdiv b 4
+     | _ => a - b)
+  else
+    let (neg, pos) : Int × Int :=
+      if ctor == "cmpk" then (-1000, 1000)
+      else if ctor == "cmpbig" then (-9223372036854775808, 9223372036854775807)
+      else (-1, 1)
+    if ordLess o a b then neg else if ordLess o b a then pos else 0
+
+def isCmp (ctor : String) : Bool := ctor.startsWith "cmp"
 
 /-- the order on priorities as the queue constructor builds it -/
 def mkLessQ (ord ctor : String) : Int → Int → Bool :=
-  if ctor == "cmp" then lessOfCmpP (ordCmp ord) else ordLess ord
+  if isCmp ctor then lessOfCmpP (ordCmp ord ctor) else ordLess ord
 
 structure St where
   hless : Item → Item → Bool := fun a b => decide (a.1 < b.1)
@@ -74,7 +90,7 @@ def step (s : St) : List String → St × String
   -- xheap.Heap
   | ["hnew", ord, ctor, items] =>
     let less : Item → Item → Bool :=
-      if ctor == "cmp" then lessOfCmp (fun a b => ordCmp ord a.1 b.1)
+      if isCmp ctor then lessOfCmp (fun a b => ordCmp ord ctor a.1 b.1)
       else lessOfLess (fun a b => ordLess ord a.1 b.1)
     let r := Heap.new less (parsePairs items)
     ({ s with hless := less, h := r.1, hits := #[] }, "ok")
